@@ -20,7 +20,7 @@ PRISTINE = {"H": 0, "A": 0, "D": 5_000_000, "Dcount": 0, "R": 0, "G": "on", "Lg"
 
 TIERS = {
     # batches, worlds per batch, targets per batch, real-layout worlds per batch, canary procs, census worlds
-    "quick": {"batches": 3, "worlds": 12, "targets": 40, "real": 3, "canary": 16, "abort": 0.10, "resalt": 0.0, "census": 3},
+    "quick": {"batches": 3, "worlds": 12, "targets": 40, "real": 3, "canary": 16, "abort": 0.20, "resalt": 0.0, "census": 3},
     "thorough": {"batches": 12, "worlds": 48, "targets": 64, "real": 16, "canary": 48, "abort": 0.15, "resalt": 0.05, "census": 10},
 }
 CENSUS_CHUNK = 90
@@ -107,6 +107,10 @@ def build_history(seed: int, batch: int, w: int, targets: dict, ref_steps: dict,
                 else:  # log-uniform: early positions (normalisation, first passes) get their share
                     j = max(1, int(steps ** rng.random()))
                 ops.append({"op": "opt_abort", "t": ta, "j": j})
+                if rng.random() < 0.7:
+                    # the aborted program again, straight away: same vocabulary, so anything the aborted call
+                    # left behind (names, usage marks) has the best chance to collide
+                    ops.append({"op": "opt", "t": ta})
             elif done:
                 ops.append({"op": "opt", "t": rng.choice(done)})
         kind = rng.choices(["opt", "opt_same_list", "opt_shared"], [0.7, 0.15, 0.15])[0]
@@ -115,16 +119,21 @@ def build_history(seed: int, batch: int, w: int, targets: dict, ref_steps: dict,
     return ops
 
 
-def build_census(seed: int, nworlds: int, programs: list[dict]) -> dict:
+def build_census(seed: int, nworlds: int, programs: list[dict], all_masks: bool) -> dict:
     """every workload program once under `default` and `all` in every census world; each world runs
     the programs in its own shuffled order, cut into several worker processes (= several histories)"""
     targets = {}
     for b in programs:
+        derived = b.get("src") in ("wide", "twin")
         for mask, mn in ((workload.DEFAULT, "d"), (workload.ALL, "a")):
+            if derived and not all_masks and (mn == "a") != (len(targets) % 5 == 0):
+                continue  # quick tier: a derived program gets one of the two trait sets (mostly default)
             targets[f"c.{b['id']}.{mn}"] = {"text": b["text"], "inp": "auto", "out": "auto", "mask": mask, "origin": b["id"], "decl": "auto"}
     jobs = {}
     for w in range(nworlds):
         world = dict(PRISTINE) if w == 0 else build_world(seed, "census", w)
+        if w > 0:  # the census worlds rotate through the logging regimes of the embedding application
+            world["Lg"] = ["debug", "critical", "info", "none"][(w - 1) % 4]
         order = list(targets)
         stream(seed, "census", "order", w).shuffle(order)
         for k in range(0, len(order), CENSUS_CHUNK):
@@ -190,7 +199,7 @@ class Table:
                     site = (ev.get("at") or "?").split(":")[0]
                     self.abort_sites[site] = self.abort_sites.get(site, 0) + 1
                     continue
-                if oc == "DIVERGED:steps":
+                if oc == "DIVERGED:steps" or oc.startswith("SKIPPED"):
                     self.step_div += 1
                     continue
                 wit = dict(wit_base)
@@ -297,7 +306,7 @@ def run(args) -> int:
         for bt in batches:
             ops = [{"op": "opt", "t": t, "lines": True} for t in bt["targets"]]
             jobs.append({"seed": seed, "world": dict(PRISTINE), "targets": bt["targets"], "ops": ops, "wall_s": 3000})
-        census = build_census(seed, cfg["census"], workload.load_all()) if cfg["census"] else None
+        census = build_census(seed, cfg["census"], workload.load_all(), tier == "thorough") if cfg["census"] else None
         cjobs = list(census["jobs"].items()) if census is not None else []
         res = pool.run(jobs + [j for _, j in cjobs])
         check_results(res)
